@@ -58,6 +58,8 @@ type OptRow struct {
 	// a configuration AS WRITTEN (MCChainAdmissionCfg.tla): the lists of names the operator configured, in their order
 	// and with their repetitions; EKUs / RejExts are the filter they mean
 	Spelled bool     `json:"spelled"`
+	// a window as configured (MCChainAdmissionWin.tla): start / limit anywhere on the instants 1..8; realized in every frame
+	Win bool `json:"win"`
 	EkuList []string `json:"ekuList"`
 	ExtList []string `json:"extList"`
 }
@@ -68,6 +70,8 @@ type Tables struct {
 	NBase int                 `json:"nbase"` // the first NBase rows are the option table proper (0: all); configurations as written follow
 	Certs []CertRec           `json:"certs"`
 	Trust map[string][]string `json:"trust"`
+	Forms  []FormRec          `json:"forms"`  // FORMS: the certificates in other encodings / followed by trailers
+	Frames *FramesTab         `json:"frames"` // FRAMES: where on the line of real instants the model's instants lie
 }
 
 // Case is one state of the model: a submitted chain and a trusted pool, with the specification's verdict for every
@@ -97,12 +101,17 @@ var (
 // epoch: the model's instants as real ones, one hour apart.  "past" lies wholly before the wall clock (the model's
 // now = 9 for an instance, which reads the system clock), "future" wholly after it (now = 0).
 type epoch struct {
-	name string
-	base time.Time
-	unit time.Duration // one model instant (0: an hour)
+	name  string
+	base  time.Time
+	unit  time.Duration // one model instant (0: an hour)
+	at    []time.Time   // a frame of the specification: the real instant of every model instant 0..9 (base / unit unused)
+	clock string        // "before" / "after": where the wall clock lies relative to the NotAfter instants
 }
 
 func (e epoch) tick(k int) time.Time {
+	if e.at != nil {
+		return e.at[k]
+	}
 	u := e.unit
 	if u == 0 {
 		u = time.Hour
@@ -111,8 +120,8 @@ func (e epoch) tick(k int) time.Time {
 }
 
 var (
-	past   = epoch{name: "past", base: time.Date(1995, 6, 1, 0, 0, 0, 0, time.UTC)}
-	future = epoch{name: "future", base: time.Date(2120, 1, 1, 0, 0, 0, 0, time.UTC)}
+	past   = epoch{name: "past", base: time.Date(1995, 6, 1, 0, 0, 0, 0, time.UTC), clock: "after"}
+	future = epoch{name: "future", base: time.Date(2120, 1, 1, 0, 0, 0, 0, time.UTC), clock: "before"}
 )
 
 type world struct {
@@ -126,6 +135,7 @@ type world struct {
 	poolsRev map[string]*x509util.PEMCertPool
 	filesRev map[string][][]byte
 	parsed map[string]*ctx509.Certificate
+	form   map[string]FormRec // the entries that are forms of a certificate of the hierarchy
 }
 
 var stdEKU = map[string]stdx509.ExtKeyUsage{"server": stdx509.ExtKeyUsageServerAuth, "client": stdx509.ExtKeyUsageClientAuth,
@@ -141,7 +151,7 @@ var poisonKind = map[string]string{"none": "", "ok": "ok", "noncritical": "noncr
 
 func newWorld(ep epoch, tab *Tables, keys map[string]crypto.Signer) (*world, error) {
 	w := &world{ep: ep, tab: tab, nodes: map[string]*pki.Node{}, der: map[string][]byte{}, pools: map[string]*x509util.PEMCertPool{},
-		roots: map[string][]byte{}, parsed: map[string]*ctx509.Certificate{}, poolsRev: map[string]*x509util.PEMCertPool{}, filesRev: map[string][][]byte{}}
+		roots: map[string][]byte{}, parsed: map[string]*ctx509.Certificate{}, form: map[string]FormRec{}, poolsRev: map[string]*x509util.PEMCertPool{}, filesRev: map[string][][]byte{}}
 	recs := map[string]CertRec{}
 	for _, r := range tab.Certs {
 		recs[r.ID] = r
@@ -279,6 +289,15 @@ func newWorld(ep epoch, tab *Tables, keys map[string]crypto.Signer) (*world, err
 		}
 		w.parsed[id] = c
 	}
+	// the forms of the entries: whether the front end reads them is the question of the cases, not of the set-up
+	if err := w.buildForms(); err != nil {
+		return nil, err
+	}
+	for id := range w.form {
+		if c, err := ctx509.ParseCertificate(w.der[id]); c != nil && !ctx509.IsFatal(err) {
+			w.parsed[id] = c
+		}
+	}
 	for name, ids := range tab.Trust {
 		var ns []*pki.Node
 		for _, id := range ids {
@@ -336,6 +355,8 @@ type runner struct {
 	mu     sync.Mutex
 	insts  map[string]*Inst
 	cnt    map[string]int
+	// the frames of the specification by name, and those in which the wall clock lies before / after every NotAfter
+	frames, before, after []string
 }
 
 func (r *runner) count(k string) {
@@ -351,7 +372,20 @@ func has(set []int, k int) bool {
 
 func optLabel(o OptRow) string {
 	var p []string
-	if o.Start >= 0 || o.Limit >= 0 {
+	if o.Win { // a window as configured: the class is which bounds are present
+		switch {
+		case o.Start >= 0 && o.Limit >= 0 && o.Limit < o.Start:
+			p = append(p, "window(limit-before-start)")
+		case o.Start >= 0 && o.Limit >= 0:
+			p = append(p, "window(both)")
+		case o.Start >= 0:
+			p = append(p, "window(start-only)")
+		case o.Limit >= 0:
+			p = append(p, "window(limit-only)")
+		default:
+			p = append(p, "window(none)")
+		}
+	} else if o.Start >= 0 || o.Limit >= 0 {
 		p = append(p, "window")
 	}
 	if o.RejExp {
@@ -519,9 +553,21 @@ func (r *runner) validate(c Case, k int, w *world, opts ctfe.CertValidationOpts,
 	}
 	r.rep.Eval(key)
 	r.count(route)
+	r.count("frame:" + w.ep.name)
+	if o.Win {
+		r.count("window-frame:" + w.ep.name)
+	}
+	if len(c.Tags) == 1 && strings.HasPrefix(c.Tags[0], "entry:") {
+		r.count(c.Tags[0])
+	}
 	if (err == nil) != want {
-		r.rep.Violate(fmt.Sprintf("%s:%s:opts=%s:spec=%v", site, caseLabel(c), optLabel(o), want),
-			fmt.Sprintf("%s(%v) with trusted %v and options %+v: specification admits=%v, implementation error=%v", site, c.Ch, r.tab.Trust[c.T], o, want, err), ctxt)
+		fp := fmt.Sprintf("%s:%s:opts=%s:spec=%v", site, caseLabel(c), optLabel(o), want)
+		if o.Win {
+			fp += ":frame=" + w.ep.name
+		}
+		r.rep.Violate(fp,
+			fmt.Sprintf("%s(%v) with trusted %v and options %+v in frame %s (NotAfter of the leaf %v, start %v, limit %v): specification admits=%v, implementation error=%v",
+				site, c.Ch, r.tab.Trust[c.T], o, w.ep.name, leafNotAfter(w, c), bound(w.ep, o.Start), bound(w.ep, o.Limit), want, err), ctxt)
 		return
 	}
 	if err == nil {
@@ -602,18 +648,41 @@ func instCfgV(w *world, T string, o OptRow, rev bool) InstCfg {
 	return cfg
 }
 
-// viaHTTP: both endpoints of a configured instance
-func (r *runner) viaHTTP(c Case, k int) {
+// leafNotAfter: the NotAfter the submitted leaf carries in the world (for messages)
+func leafNotAfter(w *world, c Case) any {
+	if len(c.Ch) > 0 {
+		if n, ok := w.nodes[c.Ch[0]]; ok && n.Cert != nil {
+			return n.Cert.NotAfter.UTC().Format(time.RFC3339)
+		}
+	}
+	return "?"
+}
+
+// viaHTTP: both endpoints of a configured instance.  An instance reads the system clock: only "now before / after
+// every NotAfter" can be arranged, by a frame on the matching side of the wall clock (sel picks among them; a window as
+// configured is submitted in all of them).
+func (r *runner) viaHTTP(c Case, k int, sel int) {
 	o := r.tab.Opts[k-1]
-	var w *world
+	var side []string
 	switch o.Now {
 	case 0:
-		w = r.worlds["future"]
+		side = r.before
 	case 9:
-		w = r.worlds["past"]
+		side = r.after
 	default:
-		return // an instance reads the system clock: only "before / after every NotAfter" can be arranged
+		return
 	}
+	if o.Win {
+		for _, f := range side {
+			r.viaHTTPIn(c, k, r.worlds[f])
+		}
+		return
+	}
+	r.viaHTTPIn(c, k, r.worlds[side[sel%len(side)]])
+}
+
+func (r *runner) viaHTTPIn(c Case, k int, w *world) {
+	o := r.tab.Opts[k-1]
 	if o.Start >= 0 && o.Limit >= 0 && o.Limit < o.Start {
 		return // refused at configuration time ("limit before start")
 	}
@@ -637,10 +706,18 @@ func (r *runner) viaHTTP(c Case, k int) {
 		}
 		r.rep.Eval(key)
 		r.count("posts")
+		r.count("frame:" + w.ep.name)
+		if o.Win {
+			r.count("window-frame:" + w.ep.name)
+		}
 		if (status == 200) != want || (status != 200 && status != 400) {
-			r.rep.Violate(fmt.Sprintf("%s:%s:opts=%s:spec=%v:status=%d", ep, caseLabel(c), optLabel(o), want, status),
-				fmt.Sprintf("%s of %v on an instance trusting %v with options %+v: specification admits=%v, HTTP status %d (%s)",
-					ep, c.Ch, r.tab.Trust[c.T], o, want, status, firstLine(body)), ctxt)
+			fp := fmt.Sprintf("%s:%s:opts=%s:spec=%v:status=%d", ep, caseLabel(c), optLabel(o), want, status)
+			if o.Win {
+				fp += ":frame=" + w.ep.name
+			}
+			r.rep.Violate(fp,
+				fmt.Sprintf("%s of %v on an instance trusting %v with options %+v in frame %s (NotAfter of the leaf %v, start %v, limit %v): specification admits=%v, HTTP status %d (%s)",
+					ep, c.Ch, r.tab.Trust[c.T], o, w.ep.name, leafNotAfter(w, c), bound(w.ep, o.Start), bound(w.ep, o.Limit), want, status, firstLine(body)), ctxt)
 			continue
 		}
 		if status == 200 {
@@ -737,7 +814,7 @@ func queuedPath(l *trillian.LogLeaf, precert bool) ([][]byte, error) {
 // kind: ctfe.IsPrecertificate on the submitted leaf
 func (r *runner) kind(c Case, w *world) {
 	leaf, ok := w.parsed[c.Ch[0]]
-	if !ok {
+	if !ok || c.Kind == "unparsable" { // (an entry the model does not read as a certificate has no kind)
 		return
 	}
 	var is bool
@@ -838,12 +915,25 @@ func TestReplay(t *testing.T) {
 	}
 	keys, keyTypes := makeKeys(&tab)
 	r := &runner{tab: &tab, worlds: map[string]*world{}, rep: rep, dir: t.TempDir(), insts: map[string]*Inst{}, cnt: map[string]int{}}
-	for _, ep := range []epoch{past, future} {
+	eps, err := epochsOf(tab.Frames)
+	if err != nil {
+		t.Fatal(err)
+	}
+	for _, ep := range eps {
 		w, err := newWorld(ep, &tab, keys)
 		if err != nil {
-			t.Fatal(err)
+			t.Fatalf("frame %s: %v", ep.name, err)
 		}
 		r.worlds[ep.name] = w
+		r.frames = append(r.frames, ep.name)
+		if ep.clock == "before" {
+			r.before = append(r.before, ep.name)
+		} else {
+			r.after = append(r.after, ep.name)
+		}
+	}
+	if len(r.before) == 0 || len(r.after) == 0 {
+		t.Fatal("the frames leave one side of the wall clock empty")
 	}
 	rep.Extra["key_types"] = keyTypes
 
@@ -863,10 +953,14 @@ func TestReplay(t *testing.T) {
 		var leaves []string
 		for i, c := range cases {
 			if c.Ok {
-				if len(byLeaf[c.Ch[0]]) == 0 {
-					leaves = append(leaves, c.Ch[0])
+				l := c.Ch[0]
+				if j := strings.IndexByte(l, '~'); j >= 0 && !strings.HasSuffix(l, "~f") {
+					l = l[j:] // a leaf in another encoding: the full table per encoding, not per leaf x encoding
 				}
-				byLeaf[c.Ch[0]] = append(byLeaf[c.Ch[0]], i)
+				if len(byLeaf[l]) == 0 {
+					leaves = append(leaves, l)
+				}
+				byLeaf[l] = append(byLeaf[l], i)
 			}
 		}
 		sort.Strings(leaves)
@@ -874,8 +968,12 @@ func TestReplay(t *testing.T) {
 		for _, l := range leaves {
 			idx := byLeaf[l]
 			pr.Shuffle(len(idx), func(a, b int) { idx[a], idx[b] = idx[b], idx[a] })
+			n := fullPerLeaf
+			if n == 0 && strings.HasPrefix(l, "~") {
+				n = 8 // thorough: the full table on all chains in order per leaf, on eight per encoding of a leaf
+			}
 			for j, i := range idx {
-				if fullPerLeaf == 0 || j < fullPerLeaf {
+				if n == 0 || j < n {
 					full[i] = true
 				}
 			}
@@ -905,7 +1003,7 @@ func TestReplay(t *testing.T) {
 				sort.Ints(c.Val)
 				sort.Ints(c.AdmC)
 				sort.Ints(c.AdmP)
-				wd := r.worlds[[]string{"past", "future"}[i%2]]
+				wd := r.worlds[r.frames[i%len(r.frames)]]
 				r.kind(c, wd)
 				var ks []int
 				switch {
@@ -921,8 +1019,8 @@ func TestReplay(t *testing.T) {
 					n := perBad
 					if c.Ok {
 						n = perOK
-					} else if len(c.Tags) == 1 && c.Tags[0] == "two" {
-						n = 1 // the doubly perturbed chains are many: the lenient pair and one drawn combination each
+					} else if len(c.Tags) == 1 && (c.Tags[0] == "two" || strings.HasPrefix(c.Tags[0], "entry:")) {
+						n = 1 // the doubly perturbed chains and the entries in other forms are many: the lenient pair and one drawn combination each
 					}
 					ks = []int{1, 1 + 24} // lenient with now = 0 and now = 9
 					for j := 0; j < n; j++ {
@@ -931,13 +1029,18 @@ func TestReplay(t *testing.T) {
 				}
 				for _, k := range ks {
 					o := tab.Opts[k-1]
-					wk := r.worlds[[]string{"past", "future"}[(i+k)%2]]
-					if len(o.RejExts) == 0 && !contains(o.EKUs, "any") && !o.Spelled {
+					wk := r.worlds[r.frames[(i+k)%len(r.frames)]]
+					if o.Win { // a window as configured: every frame, handed over directly and through the configuration path
+						for _, f := range r.frames {
+							r.direct(c, k, r.worlds[f])
+							r.configured(c, k, r.worlds[f])
+						}
+					} else if len(o.RejExts) == 0 && !contains(o.EKUs, "any") && !o.Spelled {
 						r.direct(c, k, wk)
 					} else if len(o.RejExts) == 0 {
 						r.configured(c, k, wk)
 					}
-					r.viaHTTP(c, k)
+					r.viaHTTP(c, k, k) // (the frame of an instance follows the option row: one instance per row, trusted pool and order)
 				}
 			}
 		}(g)
@@ -949,7 +1052,7 @@ func TestReplay(t *testing.T) {
 	wg.Wait()
 	// the empty submission (ChainOK requires a first certificate): refused by both endpoints
 	if only == 0 {
-		w := r.worlds["future"]
+		w := r.worlds[r.before[0]]
 		if in, ok := r.instance(Case{T: "T1"}, 1, w); ok {
 			for _, ep := range []string{"add-chain", "add-pre-chain"} {
 				status := 0
